@@ -91,7 +91,10 @@ Fixpoint attribute_block (n : nat) (ls : list text) (d : list (Z * extra)) (rese
   match ls with
   | [] => inl EParser
   | l :: r =>
-    if starts_with (t "M  CHG") l then do a <- parse_assignments n l; attribute_block n r (merge_extra PChg a d) true
+    if starts_with (t "A  ") l || starts_with (t "G  ") l then
+      (* atom alias / group abbreviation: the next line is free text *)
+      match r with [] => inl EParser | _ :: r' => attribute_block n r' d reset end
+    else if starts_with (t "M  CHG") l then do a <- parse_assignments n l; attribute_block n r (merge_extra PChg a d) true
     else if starts_with (t "M  RAD") l then do a <- parse_assignments n l; attribute_block n r (merge_extra PRad a d) true
     else if starts_with (t "M  ISO") l then do a <- parse_assignments n l; attribute_block n r (merge_extra PIso a d) reset
     else if text_eqb l (t "M  END") then ok (d, reset)
@@ -114,12 +117,13 @@ Definition to_nat_idx (z : Z) : res nat := if Z.ltb z 0 then inl EOther else ok 
 Definition read_v2000 (lines : list text) : res (list ratom * list rbond) :=
   do l3 <- nth_tok 3%nat lines;
   do acz <- to_int (slice 0 3 l3); do bcz <- to_int (slice 3 6 l3); do lcz <- to_int (slice 6 9 l3);
-  do ac <- to_nat_idx acz; do bc <- to_nat_idx bcz; do lc <- to_nat_idx lcz;
+  do scz <- to_int (slice 15 18 l3);
+  do ac <- to_nat_idx acz; do bc <- to_nat_idx bcz; do lc <- to_nat_idx lcz; do sc <- to_nat_idx scz;
   let atom_lines := firstn ac (skipn 4 lines) in
   do atoms <- parse_atom_lines 0 atom_lines;
   let n := length atoms in
   do bonds <- parse_bond_lines n (firstn bc (skipn (4 + ac) lines)) [];
-  do ex <- attribute_block n (skipn (4 + ac + lc) lines) [] false;
+  do ex <- attribute_block n (skipn (4 + ac + bc + lc + 2 * sc) lines) [] false;
   let (d, reset) := ex in
   ok (map (apply_extra d reset) atoms, map (fun b => (fst (fst b), snd (fst b), snd b)) bonds).
 
